@@ -2,7 +2,7 @@
    Only statements, `exact`, and Print Assumptions.
    Model: Model/Url.v (net/url escaping, parseRequestURL), Model/H1Req.v (request writers). *)
 From ReqV Require Import Lib.Bytes Model.Url Model.HeaderCollect Model.BodyFraming Model.H1Req.
-From ReqV Require Import Proofs.UrlProofs Proofs.BodyFramingProofs Proofs.H1ReqProofs.
+From ReqV Require Import Proofs.UrlProofs Proofs.BodyFramingProofs Proofs.H1ReqProofs Proofs.H1EndToEnd.
 From Coq Require Import Permutation.
 
 (* --- values are data: escaping is invertible and leaves no byte with a meaning in a URL --- *)
@@ -125,6 +125,35 @@ Theorem C01_h1_roundtrip_chunked : forall m t ls cs z zext tb rest, ok_head m t 
 Proof. exact h1_roundtrip_chunked. Qed.
 Print Assumptions C01_h1_roundtrip_chunked.
 
+(* --- END TO END, for EVERY request the HTTP/1.1 model accepts: a reader of the bytes on the wire
+   gets exactly the described request (method, target, field lines with their values as HTTP defines
+   them, body) and whatever follows on the connection is untouched.  Hypotheses: no verbatim-key
+   header spells Content-Length / Transfer-Encoding (C16's subject); the target has no blank (only
+   the raw query text of the caller's own URL can put one there, see design.d); for a body of
+   unknown length, [parts] is a partition of it whose size lines are well-formed. --- *)
+Theorem C01_h1_end_to_end : forall a parts w rest,
+  render_h1 a parts = Sent w ->
+  no_framing_keys (a_rhdr a) = true -> no_framing_keys (a_chdr a) = true ->
+  (forall v, described a = Some v -> mem_byte " "%byte (v_target v) = false) ->
+  (forall q, to_creq a = Sent q -> h1_chunked q (eff_body a) = true ->
+     wf_chunked (map hex_chunk parts) (bs "0") [] [] /\ concat parts = eff_body a) ->
+  exists v, described a = Some v /\ observe_h1 (w ++ rest) = Some (v, rest).
+Proof. exact h1_end_to_end. Qed.
+Print Assumptions C01_h1_end_to_end.
+
+(* every field line the HTTP/1.1 writer emits is well-formed: non-empty name without ':' or CR,
+   value without CR - whatever the header map holds, once it passed validateHeaders *)
+Theorem C01_h1_field_lines_ok : forall q body,
+  valid_host_header (c_host q) = true -> valid_headers (c_hdr q) = true ->
+  Forall ok_line (h1_field_lines q body).
+Proof. exact h1_field_lines_ok. Qed.
+Print Assumptions C01_h1_field_lines_ok.
+
+(* the Content-Length text denotes the length, for every length *)
+Theorem C01_parse_dec_of_N : forall n, parse_dec (dec_of_N n) 0 = Some n.
+Proof. exact parse_dec_of_N. Qed.
+Print Assumptions C01_parse_dec_of_N.
+
 (* --- a value that cannot be sent safely makes the call fail --- *)
 (* a request-level header with an invalid name or a value holding a control byte other than TAB:
    no http.Request reaches any of the three writers *)
@@ -134,6 +163,39 @@ Theorem C01_unsafe_header_rejected : forall a x,
   forall q, to_creq a <> Sent q.
 Proof. exact unsafe_header_rejected. Qed.
 Print Assumptions C01_unsafe_header_rejected.
+
+(* client-level entries in force (the request has no value under that key) *)
+Theorem C01_unsafe_client_header_rejected : forall a x,
+  In x (a_chdr a) -> is_nil (hvals (a_rhdr a) (fst x)) = true -> bad_entry x = true ->
+  fst x <> content_type -> fst x <> bs "Cookie" ->
+  forall q, to_creq a <> Sent q.
+Proof. exact unsafe_client_header_rejected. Qed.
+Print Assumptions C01_unsafe_client_header_rejected.
+
+(* ... and nothing invalid reaches the HPACK / QPACK encoders *)
+Theorem C01_unsafe_header_rejected_h23 : forall a x,
+  (In x (a_rhdr a) /\ snd x <> [] \/ In x (a_chdr a) /\ is_nil (hvals (a_rhdr a) (fst x)) = true) ->
+  bad_entry x = true -> fst x <> content_type -> fst x <> bs "Cookie" ->
+  forall ls, fields_h2 a <> Sent ls /\ fields_h3 a <> Sent ls.
+Proof. exact unsafe_header_rejected_h23. Qed.
+Print Assumptions C01_unsafe_header_rejected_h23.
+
+Theorem C01_unsafe_method_rejected_all : forall a, valid_method (a_method a) = false ->
+  (forall q, to_creq a <> Sent q) /\
+  (forall ls, fields_h2 a <> Sent ls) /\ (forall ls, fields_h3 a <> Sent ls).
+Proof. exact unsafe_method_rejected_all. Qed.
+Print Assumptions C01_unsafe_method_rejected_all.
+
+Theorem C01_unsafe_host_rejected_h23 : forall lines mc a ls, fields_h23 lines mc a = Sent ls ->
+  exists q, to_creq_gen mc a = Sent q /\ valid_host_header (c_host q) = true /\ ls = lines q.
+Proof. exact unsafe_host_rejected_h23. Qed.
+Print Assumptions C01_unsafe_host_rejected_h23.
+
+(* before fix 962230a forced HTTP/2 wrote an invalid method into :method *)
+Theorem C01_fields_h2_pinned_refuted :
+  exists a ls, valid_method (a_method a) = false /\ fields_h2_pinned a = Sent ls /\
+               In (bs ":method", bs "GE T") ls /\ fields_h2 a = Rejected.
+Proof. exact fields_h2_pinned_refuted. Qed.
 
 Theorem C01_crlf_nul_value_invalid : forall v,
   In CR v \/ In LF v \/ In x00 v -> valid_field_value v = false.
@@ -196,3 +258,15 @@ Example C01_h1_nonvacuous :
     Some (mkView (bs "POST") (bs "/p%20q?x=1") [(bs "Host", bs "h:80"); (bs "Content-Length", bs "5"); (bs "X-A", bs "a: b")] (bs "hello"),
           bs "GET /next HTTP/1.1").
 Proof. vm_compute. reflexivity. Qed.
+
+(* the end-to-end hypotheses are met by a whole API-level request with hostile values *)
+Example C01_end_to_end_nonvacuous :
+  let a := mkA (bs "POST") (bs "http://h:80/api") (bs "/u/{id}") [(bs "id", bs "../x y")] [] []
+               [(bs "q", [bs "a&b"])] [(bs "X-A", [bs " v: 1 "])] [(bs "X-B", [bs "c"])]
+               [(bs "sid", bs "a b")] [] BKnown (bs "hello") (bs "text/plain; charset=utf-8") true in
+  exists w, render_h1 a [] = Sent w /\
+    no_framing_keys (a_rhdr a) = true /\ no_framing_keys (a_chdr a) = true /\
+    observe_h1 (w ++ bs "GET /2 HTTP/1.1") =
+      match described a with Some v => Some (v, bs "GET /2 HTTP/1.1") | None => None end /\
+    option_map v_target (described a) = Some (bs "/api/u/..%2Fx%20y?q=a%26b").
+Proof. eexists. vm_compute. repeat split. Qed.
